@@ -193,10 +193,11 @@ int main(int argc, char** argv) {
     { vt::Rng rng(args.seed * 77);
       for (CF f : {CF{"bmp", "g01bw.bmp", "1bpp"}, CF{"bmp", "g04.bmp", "4bpp"}, CF{"bmp", "g08.bmp", "8bpp"}, CF{"bmp", "g16def555.bmp", "16bpp"}, CF{"bmp", "g24.bmp", "24bpp"}, CF{"bmp", "g32def.bmp", "32bpp"},
                    CF{"bmp", "g08rle.bmp", "rle8"}, CF{"bmp", "g04rle.bmp", "rle4"}, CF{"bmp", "g08os2.bmp", "os2"}, CF{"bmp", "g08w125.bmp", "8bpp/w125"}})
-          if (mine()) paths<gil::bmp_tag, gil::rgb8_image_t, true, false, false>("bmp", f.variant, g_corpus + "/" + f.dir + "/" + f.name, false, rng);
+          if (mine()) { if (std::string(f.variant).substr(0, 3) == "rle") paths<gil::bmp_tag, gil::rgb8_image_t, true, true, false, gil::rgba8_image_t>("bmp", f.variant, g_corpus + "/" + f.dir + "/" + f.name, false, rng);      // (the scanline reader refuses RLE files: open finding)
+                        else paths<gil::bmp_tag, gil::rgb8_image_t, true, false, false>("bmp", f.variant, g_corpus + "/" + f.dir + "/" + f.name, false, rng); }
       for (CF f : {CF{"targa", "24BPP_uncompressed.tga", "raw/bottom-left"}, CF{"targa", "24BPP_uncompressed_ul_origin.tga", "raw/upper-left"}, CF{"targa", "24BPP_compressed.tga", "rle/bottom-left"},
                    CF{"targa", "24BPP_compressed_ul_origin.tga", "rle/upper-left"}})
-          if (mine()) paths<gil::targa_tag, gil::rgb8_image_t, false, false, false>("tga", f.variant, g_corpus + "/" + f.dir + "/" + f.name, false, rng);
+          if (mine()) paths<gil::targa_tag, gil::rgb8_image_t, false, true, false, gil::bgr8_image_t>("tga", f.variant, g_corpus + "/" + f.dir + "/" + f.name, false, rng);
       for (CF f : {CF{"pnm", "p4.pnm", "P4"}}) if (mine()) paths<gil::pnm_tag, gil::gray8_image_t, true, false, false>("pnm", f.variant, g_corpus + "/" + f.dir + "/" + f.name, false, rng);
       if (args.thorough()) for (CF f : {CF{"pnm", "p1.pnm", "P1"}, CF{"pnm", "p2.pnm", "P2"}, CF{"pnm", "p5.pnm", "P5"}}) if (mine()) paths<gil::pnm_tag, gil::gray8_image_t, true, false, false>("pnm", f.variant, g_corpus + "/" + f.dir + "/" + f.name, false, rng);
     }
@@ -260,21 +261,26 @@ int main(int argc, char** argv) {
         auto png = [&](int w, int h, int ctype, int depth, int nc, int interlace, std::vector<std::vector<long>>& px) {
             std::string path = g_tmp + "/ie_" + std::to_string(getpid()) + ".png"; FILE* f = fopen(path.c_str(), "wb");
             png_structp p = png_create_write_struct(PNG_LIBPNG_VER_STRING, 0, 0, 0); png_infop i = png_create_info_struct(p); png_init_io(p, f);
-            png_set_IHDR(p, i, w, h, depth, ctype, interlace ? PNG_INTERLACE_ADAM7 : PNG_INTERLACE_NONE, PNG_COMPRESSION_TYPE_DEFAULT, PNG_FILTER_TYPE_DEFAULT); png_write_info(p, i);
+            png_set_IHDR(p, i, w, h, depth, ctype, interlace ? PNG_INTERLACE_ADAM7 : PNG_INTERLACE_NONE, PNG_COMPRESSION_TYPE_DEFAULT, PNG_FILTER_TYPE_DEFAULT);
+            png_color pal[256]; if (ctype == PNG_COLOR_TYPE_PALETTE) { for (int k = 0; k < 256; ++k) { pal[k].red = (png_byte)rng.below(256); pal[k].green = (png_byte)rng.below(256); pal[k].blue = (png_byte)rng.below(256); } png_set_PLTE(p, i, pal, 256); }
+            png_write_info(p, i);
             int bpc = depth / 8; std::vector<std::vector<unsigned char>> rows(h, std::vector<unsigned char>((size_t)w * nc * bpc)); std::vector<png_bytep> rp(h); px.assign((size_t)w * h, {});
             for (int y = 0; y < h; ++y) { for (int x = 0; x < w; ++x) for (int c = 0; c < nc; ++c) { long v = rng.below(bpc == 1 ? 256 : 65536); px[(size_t)y * w + x].push_back(v);
                     if (bpc == 1) rows[y][(size_t)x * nc + c] = (unsigned char)v; else { rows[y][((size_t)x * nc + c) * 2] = (unsigned char)(v >> 8); rows[y][((size_t)x * nc + c) * 2 + 1] = (unsigned char)(v & 255); } }
                 rp[y] = rows[y].data(); }
+            if (ctype == PNG_COLOR_TYPE_PALETTE) for (auto& q : px) { long k = q[0]; q = {(long)pal[k].red, (long)pal[k].green, (long)pal[k].blue}; }      // the decoded image holds the colours
             png_set_interlace_handling(p); png_write_image(p, rp.data()); png_write_end(p, i); png_destroy_write_struct(&p, &i); fclose(f); return path; };
         std::vector<std::pair<int,int>> pd = {{1, 1}, {3, 2}, {5, 4}, {9, 3}, {2, 9}};
         if (args.thorough()) { pd.push_back({8, 8}); pd.push_back({9, 9}); pd.push_back({17, 5}); }
-        for (auto d : pd) for (int il = 0; il < 2; ++il) for (int kind = 0; kind < 4; ++kind) {
+        for (auto d : pd) for (int il = 0; il < 2; ++il) for (int kind = 0; kind < 6; ++kind) {
             if (!mine()) continue;
             std::vector<std::vector<long>> px; std::string path; bool small = d.first * d.second <= 12; std::string variant = std::string("enc/") + (il ? "interlaced/" : "plain/");
             if (kind == 0) { path = png(d.first, d.second, PNG_COLOR_TYPE_GRAY, 8, 1, il, px); g_truth = tj(px); paths<gil::png_tag, gil::gray8_image_t, false, false, true>("png", (variant + "gray8").c_str(), path, small, rng); }
             if (kind == 1) { path = png(d.first, d.second, PNG_COLOR_TYPE_RGB, 8, 3, il, px); g_truth = tj(px); paths<gil::png_tag, gil::rgb8_image_t, false, false, true>("png", (variant + "rgb8").c_str(), path, small, rng); }
             if (kind == 2) { path = png(d.first, d.second, PNG_COLOR_TYPE_RGB_ALPHA, 8, 4, il, px); g_truth = tj(px); paths<gil::png_tag, gil::rgba8_image_t, false, false, true>("png", (variant + "rgba8").c_str(), path, small, rng); }
             if (kind == 3) { path = png(d.first, d.second, PNG_COLOR_TYPE_RGB, 16, 3, il, px); g_truth = tj(px); paths<gil::png_tag, gil::rgb16_image_t, false, false, true>("png", (variant + "rgb16").c_str(), path, small, rng); }
+            if (kind == 4) { path = png(d.first, d.second, PNG_COLOR_TYPE_PALETTE, 8, 1, il, px); g_truth = tj(px); paths<gil::png_tag, gil::rgb8_image_t, false, false, true>("png", (variant + "palette8").c_str(), path, small, rng); }
+            if (kind == 5) { path = png(d.first, d.second, PNG_COLOR_TYPE_GRAY, 16, 1, il, px); g_truth = tj(px); paths<gil::png_tag, gil::gray16_image_t, false, false, true>("png", (variant + "gray16").c_str(), path, small, rng); }
             g_truth.clear(); remove(path.c_str());
         }
     }
